@@ -18,7 +18,9 @@ def items(ctx):
                 {"kind": "dict", "opt": "max", "gap": 3, "entries": []},                          # only the gap cost (1.5)
                 {"kind": "dict", "opt": "min", "gap": 1, "entries": [(0, 1, -1), (1, 1, -4), (0, 0, -2)]},
                 # free gaps (gap cost exactly 0: the falsy value of the option)
-                {"kind": "dict", "opt": "max", "gap": 0, "entries": [(0, 1, -2), (0, 0, 2)]}]
+                {"kind": "dict", "opt": "max", "gap": 0, "entries": [(0, 1, -2), (0, 0, 2)]},
+                # asymmetric table
+                {"kind": "dict", "opt": "max", "gap": 2, "asym": True, "entries": [(0, 1, 4), (1, 0, 6), (0, 0, 2), (1, 1, 2)]}]
     A = 2
     seqs = [list(t) for n in range(0, 4) for t in itertools.product(range(A), repeat=n)]
     for a in seqs:
@@ -44,6 +46,16 @@ def items(ctx):
             for (x, y, v) in sc["entries"]:
                 seen[(min(x, y), max(x, y))] = v
             sc["entries"] = [(x, y, v) for (x, y), v in seen.items()]
+            if rng.random() < 0.4:
+                # asymmetric scoring: both orientations listed with different values (the documented example
+                # {('A','B'): 2, ('B','A'): 3}); the score of a column is sub[symbol of s1][symbol of s2]
+                ent = {}
+                for (x, y, v) in sc["entries"]:
+                    ent[(x, y)] = v
+                    if x != y:
+                        ent[(y, x)] = v + rng.choice([-2, -1, 1, 2])
+                sc["entries"] = [(x, y, v) for (x, y), v in ent.items()]
+                sc["asym"] = True
         out.append({"s1": a, "s2": b, "A": A, "scoring": sc, "aslist": rng.random() < 0.3})
     for k, it in enumerate(out):
         it["id"] = "c17-%d" % k
